@@ -51,10 +51,14 @@ func init() {
 			base(r)
 			return
 		}
-		if os.Getenv("VERIF_DEBUG_C25_ONLY") != "mods" { // development aid: run this family alone
+		// development aid: VERIF_DEBUG_C25_ONLY=mods runs this family alone, =base skips it
+		only := os.Getenv("VERIF_DEBUG_C25_ONLY")
+		if only != "mods" {
 			base(r)
 		}
-		c25Mods(r)
+		if only != "base" {
+			c25Mods(r)
+		}
 	}
 	checks["C25"] = e
 }
@@ -91,8 +95,8 @@ var c25mProducts = []c25mProduct{
 		Header: `{"cmd":"REQ_HEADER_SET","params":["X-Bfe-Rh","%bfe_request_host"]},{"cmd":"REQ_HEADER_ADD","params":["X-Bfe-Info","h=%bfe_request_host;ip=%bfe_client_ip;port=%bfe_client_port;proto=%bfe_protocol"]}`,
 		Seg1:   "a", Pos: []string{"hdr:x-forwarded-host", "hdr:x-forwarded-for", "hdr:x-forwarded-port", "hdr:x-real-ip", "hdr:x-real-port"}, Effect: "hdr:X-Bfe-Rh"},
 	{Tag: "header-rename", Header: `{"cmd":"REQ_HEADER_RENAME","params":["X-Src","X-Dst"]}`, Seg1: "a", Pos: []string{"hdr:x-src"}, Effect: "hdr:X-Dst"},
-	{Tag: "header-mod-referer-query-add", Header: `{"cmd":"REQ_HEADER_MOD","params":["QUERY_ADD","Referer","rk","rv"]}`, Seg1: "a", Pos: []string{"hdr:referer"}, Effect: "referer"},
-	{Tag: "header-mod-referer-scheme-set", Header: `{"cmd":"REQ_HEADER_MOD","params":["SCHEME_SET","Referer","https"]}`, Seg1: "a", Pos: []string{"hdr:referer"}, Effect: "referer"},
+	{Tag: "header-mod-referer-query-add", Header: `{"cmd":"REQ_HEADER_MOD","params":["QUERY_ADD","Referer","rk","rv"]}`, Seg1: "a", Pos: []string{"hdr:referer", "hdr:referer-userinfo", "hdr:referer-fragment"}, Effect: "referer"},
+	{Tag: "header-mod-referer-scheme-set", Header: `{"cmd":"REQ_HEADER_MOD","params":["SCHEME_SET","Referer","https"]}`, Seg1: "a", Pos: []string{"hdr:referer", "hdr:referer-userinfo", "hdr:referer-fragment"}, Effect: "referer"},
 	{Tag: "cookie-set", Header: `{"cmd":"REQ_COOKIE_SET","params":["sid","newval"]}`, Seg1: "a", Pos: []string{"cookie-ruled", "cookie-other", "cookie-name"}, Effect: "cookie"},
 	{Tag: "cookie-del", Header: `{"cmd":"REQ_COOKIE_DEL","params":["sid"]}`, Seg1: "a", Pos: []string{"cookie-ruled", "cookie-other", "cookie-name"}, Effect: "cookie"},
 }
@@ -277,7 +281,15 @@ func c25mGen(g *vkit.Rand, id int, frontend string, cell c25mCell) *c25mCase {
 	}
 	c.Target = "/" + seg1 + "/" + seg2 + "/" + last + "?" + strings.Join(qparts, "&")
 	for _, f := range c25mBaseFields {
-		if cell.pos == "hdr:"+f.Name {
+		switch {
+		case f.Name == "referer" && cell.pos == "hdr:referer":
+			// inside the path of the URL: the component REQ_HEADER_MOD decodes and re-encodes
+			f.Value = "http://ref.example/" + put("p") + "/q?x=1"
+		case f.Name == "referer" && cell.pos == "hdr:referer-userinfo":
+			f.Value = "http://" + put("user") + "@ref.example/p/q?x=1"
+		case f.Name == "referer" && cell.pos == "hdr:referer-fragment":
+			f.Value = "http://ref.example/p/q?x=1#" + put("frag")
+		case cell.pos == "hdr:"+f.Name:
 			f.Value = put(f.Value)
 		}
 		c.Fields = append(c.Fields, f)
@@ -327,7 +339,7 @@ func c25mConf() (hostRule, routeRule, rewrite, header string) {
 		`{"Version":"v1","Config":{` + strings.Join(hd, ",") + `}}`
 }
 
-const c25mRule = "MODULES FAMILY (c25mods.go): a second in-process BFE with mod_trust_clientip (loopback trusted, so X-Real-Ip / X-Forwarded-For of the request are read), mod_rewrite and mod_header (default X-Forwarded-* / X-Real-* fields on), HTTP + HTTPS (ALPN h2, spdy/3.1), backend keep-alive off; 18 products, one per action configuration: HOST_SET_FROM_PATH_PREFIX (alone; with REQ_HEADER_SET/REQ_COOKIE_SET %bfe_request_host; in a chain with PATH_PREFIX_ADD, QUERY_ADD, QUERY_RENAME), HOST_SET, HOST_SUFFIX_REPLACE, PATH_SET, PATH_PREFIX_ADD, PATH_PREFIX_TRIM, QUERY_ADD, QUERY_DEL, QUERY_RENAME, QUERY_DEL_ALL_EXCEPT, REQ_HEADER_SET/ADD with %bfe_request_host %bfe_client_ip %bfe_client_port %bfe_protocol, REQ_HEADER_RENAME, REQ_HEADER_MOD QUERY_ADD / SCHEME_SET on Referer, REQ_COOKIE_SET, REQ_COOKIE_DEL. Every request is /seg1/seg2/last?k=..&d=..&o=..&x=.. with Referer, X-Src, X-Forwarded-Host/-For/-Port, X-Real-Ip/-Port, User-Agent, Cookie (sid, theme, other); ONE ingredient that the product's actions read (first / second / last path segment, a query key starting with the ruled key, the ruled query value, another query value, the ruled / another cookie value, a cookie name, one of the header values) carries ONE hostile byte string at its start / middle / end: percent-encoded CR LF + 'Injected: 1' (lower and upper hex), LF + field, CR + field, CR LF CR LF + a second request, SP 'HTTP/1.1' CR LF + field (request-line break), NUL, another CTL, DEL, SP, HTAB, doubly encoded CR LF (%250d%250a), obs-text, encoded delimiters (%2f%3f%23%40), '+'; raw obs-text; on HTTP/2 and SPDY also raw CR LF + field, LF + field, NUL, DEL, SP (on HTTP/1 these are message structure, not bytes of an ingredient). Header and cookie positions take pct-crlf, pct-nul and the raw strings only (nothing decodes the others there); upper-hex only at the first segment / ruled query key / value, encoded delimiters only in path segments, '+' only in the query. ALL cells (frontend, product, position, byte string) are enumerated in every run (thorough: 10 times); the seed picks the place, the control byte, the method/body and the order. Oracle = the C25 backend-stream oracle on the bytes of the backend connection(s) that carry the request's X-Id: one connection; strict RFC 7230 parse (same named exclusion for bytes >= 0x80 in the target) of exactly one request using all bytes; no field 'Injected'; method, target and Host equal what a harness filter placed after the modules saw as the accepted, rewritten request; every field is a field of that request or one bfe adds for its own hop; body equal. A request bfe refuses is always fine. Host syntax beyond the field grammar is not judged; a Host left empty by HOST_SET_FROM_PATH_PREFIX on an empty first segment (docs silent, same exclusion as C49) is not compared. After a structural finding (extra bytes, field 'Injected') the equality comparisons of that case are skipped, they would repeat it. Non-trivial = forwarded with the hostile ingredient; distinct = cell. Inconclusive if a (frontend, product) never forwarded a request or never showed the effect of its actions, or a byte string was never forwarded on a frontend that accepts it."
+const c25mRule = "MODULES FAMILY (c25mods.go): a second in-process BFE with mod_trust_clientip (loopback trusted, so X-Real-Ip / X-Forwarded-For of the request are read), mod_rewrite and mod_header (default X-Forwarded-* / X-Real-* fields on), HTTP + HTTPS (ALPN h2, spdy/3.1), backend keep-alive off; 18 products, one per action configuration: HOST_SET_FROM_PATH_PREFIX (alone; with REQ_HEADER_SET/REQ_COOKIE_SET %bfe_request_host; in a chain with PATH_PREFIX_ADD, QUERY_ADD, QUERY_RENAME), HOST_SET, HOST_SUFFIX_REPLACE, PATH_SET, PATH_PREFIX_ADD, PATH_PREFIX_TRIM, QUERY_ADD, QUERY_DEL, QUERY_RENAME, QUERY_DEL_ALL_EXCEPT, REQ_HEADER_SET/ADD with %bfe_request_host %bfe_client_ip %bfe_client_port %bfe_protocol, REQ_HEADER_RENAME, REQ_HEADER_MOD QUERY_ADD / SCHEME_SET on Referer, REQ_COOKIE_SET, REQ_COOKIE_DEL. Every request is /seg1/seg2/last?k=..&d=..&o=..&x=.. with Referer, X-Src, X-Forwarded-Host/-For/-Port, X-Real-Ip/-Port, User-Agent, Cookie (sid, theme, other); ONE ingredient that the product's actions read (first / second / last path segment, a query key starting with the ruled key, the ruled query value, another query value, the ruled / another cookie value, a cookie name, one of the header values; for Referer: its path, userinfo or fragment) carries ONE hostile byte string at its start / middle / end: percent-encoded CR LF + 'Injected: 1' (lower and upper hex), LF + field, CR + field, CR LF CR LF + a second request, SP 'HTTP/1.1' CR LF + field (request-line break), NUL, another CTL, DEL, SP, HTAB, doubly encoded CR LF (%250d%250a), obs-text, encoded delimiters (%2f%3f%23%40), '+'; raw obs-text; on HTTP/2 and SPDY also raw CR LF + field, LF + field, NUL, DEL, SP (on HTTP/1 these are message structure, not bytes of an ingredient). Header and cookie positions take pct-crlf, pct-nul and the raw strings only (nothing decodes the others there); upper-hex only at the first segment / ruled query key / value, encoded delimiters only in path segments, '+' only in the query. ALL cells (frontend, product, position, byte string) are enumerated in every run (thorough: 10 times); the seed picks the place, the control byte, the method/body and the order. Oracle = the C25 backend-stream oracle on the bytes of the backend connection(s) that carry the request's X-Id: one connection; strict RFC 7230 parse (same named exclusion for bytes >= 0x80 in the target) of exactly one request using all bytes; no field 'Injected'; method, target and Host equal what a harness filter placed after the modules saw as the accepted, rewritten request; every field is a field of that request or one bfe adds for its own hop; body equal. A request bfe refuses is always fine. Host syntax beyond the field grammar is not judged; a Host left empty by HOST_SET_FROM_PATH_PREFIX on an empty first segment (docs silent, same exclusion as C49) is not compared. After a structural finding (extra bytes, field 'Injected') the equality comparisons of that case are skipped, they would repeat it. Non-trivial = forwarded with the hostile ingredient; distinct = cell. Inconclusive if a (frontend, product) never forwarded a request or never showed the effect of its actions, or a byte string was never forwarded on a frontend that accepts it."
 
 type c25mAccepted struct {
 	Method, RequestURI, Host, Target string
